@@ -58,5 +58,16 @@ def gen_storage() -> str:
     )
     out.append("/-- `ADDRESS_EMPTY` -/")
     out.append(f"def addressEmpty : Val := {_lval(ADDRESS_EMPTY)}\n")
+    # the attribute names the library itself stores: what `read_snmp_values` patches in (the SNMP OIDs) and the
+    # STORAGE_ATTR_* constants of the Hytera P2P / RDAC handlers, in definition order, duplicates kept
+    from okdmr.dmrlib.hytera.snmp import SNMP
+    from okdmr.dmrlib.protocols.hytera.p2p_datagram_protocol import P2PDatagramProtocol
+    from okdmr.dmrlib.protocols.hytera.rdac_datagram_protocol import RDACDatagramProtocol
+
+    oids = [v for k, v in vars(SNMP).items() if k.startswith("OID_") and isinstance(v, str)]
+    handler = [v for cls in (P2PDatagramProtocol, RDACDatagramProtocol) for k, v in vars(cls).items() if k.startswith("STORAGE_ATTR_") and isinstance(v, str)]
+    out.append("/-- attribute names the library stores by itself: `SNMP.OID_*` (patched in by `read_snmp_values`) and the")
+    out.append("`STORAGE_ATTR_*` constants of the P2P / RDAC handlers -/")
+    out.append("def libraryKeys : List String := [\n    " + ",\n    ".join(lstr(k) for k in oids + handler) + "]\n")  # noqa: F821
     out.append("end Dmr.Gen.Storage\n")
     return "\n".join(out)
